@@ -304,9 +304,50 @@ func (h *hctx) expr(e ast.Expr, env henv) hv {
 	case *ast.TypeAssertExpr:
 		return h.expr(x.X, env)
 	case *ast.CompositeLit:
+		switch exprString(x.Type) {
+		case "datatransfer.TypedVoucher":
+			var ty, nd string
+			for _, el := range x.Elts {
+				kv, ok := el.(*ast.KeyValueExpr)
+				if !ok {
+					h.refuse(e, "TypedVoucher literal without field names")
+				}
+				v := h.expr(kv.Value, env)
+				switch exprString(kv.Key) {
+				case "Type":
+					if v.kind != "str" {
+						h.refuse(kv.Value, "the Type of a TypedVoucher literal is a %s", v.kind)
+					}
+					ty = v.coq
+				case "Voucher":
+					if v.kind != "node" {
+						h.refuse(kv.Value, "the Voucher of a TypedVoucher literal is a %s", v.kind)
+					}
+					nd = v.coq
+				}
+			}
+			if ty == "" || nd == "" {
+				h.refuse(e, "TypedVoucher literal must set Type and Voucher")
+			}
+			return hv{coq: fmt.Sprintf("{| v_type := %s; v_node := %s |}", ty, nd), kind: "voucher"}
+		case "datatransfer.ValidationResult":
+			if len(x.Elts) == 0 {
+				return hv{coq: "zero_valres", kind: "valres"}
+			}
+		}
 		return hv{kind: "opaque"}
 	}
 	h.refuse(e, "expression `%s` is outside the translated subset", exprString(e))
+	return hv{}
+}
+
+// exprMaybe evaluates e when it is a plain identifier bound in env (kind "" otherwise)
+func (h *hctx) exprMaybe(e ast.Expr, env henv) hv {
+	if id, ok := e.(*ast.Ident); ok {
+		if v, ok := env[id.Name]; ok {
+			return v
+		}
+	}
 	return hv{}
 }
 
@@ -785,14 +826,28 @@ func (h *hctx) seq(list []ast.Stmt, env henv, tail tailFn) string {
 					e2[lhsName(s.Lhs[0])] = retK("ROther")
 					return rest(e2)
 				}
-				if sel, ok := r.Fun.(*ast.SelectorExpr); ok && sel.Sel.Name == "Voucher" && len(s.Lhs) == 2 {
-					// reqVoucher, err := req.Voucher(): an error iff the message carries no voucher node
-					b := h.expr(sel.X, env)
-					if b.kind == "msg" {
-						e2 := env.copy()
-						e2[lhsName(s.Lhs[0])] = hv{coq: "g_vnode " + paren(b.coq), kind: "node"}
-						e2[lhsName(s.Lhs[1])] = retOk("negb (N.eqb (g_vnode "+paren(b.coq)+") 0)", "ROther")
-						return rest(e2)
+				if sel, ok := r.Fun.(*ast.SelectorExpr); ok && len(s.Lhs) == 2 && len(r.Args) == 0 {
+					// node, err := msg.Voucher() / VoucherResult() / Selector() / TypedVoucher(): an error iff the
+					// message does not carry that node
+					if b := h.exprMaybe(sel.X, env); b.kind == "msg" {
+						m := paren(b.coq)
+						var val hv
+						field := "g_vnode"
+						switch sel.Sel.Name {
+						case "Voucher", "VoucherResult":
+							val = hv{coq: "g_vnode " + m, kind: "node"}
+						case "Selector":
+							field = "g_selector"
+							val = hv{coq: "g_selector " + m, kind: "node"}
+						case "TypedVoucher":
+							val = hv{coq: fmt.Sprintf("{| v_type := g_vtype %s; v_node := g_vnode %s |}", m, m), kind: "voucher"}
+						}
+						if val.kind != "" {
+							e2 := env.copy()
+							e2[lhsName(s.Lhs[0])] = val
+							e2[lhsName(s.Lhs[1])] = retOk(fmt.Sprintf("negb (N.eqb (%s %s) 0)", field, m), "ROther")
+							return rest(e2)
+						}
 					}
 				}
 			case *ast.TypeAssertExpr:
@@ -1062,8 +1117,22 @@ func (h *hctx) ret(s *ast.ReturnStmt, env henv) string {
 		}
 	}
 	var parts []string
+	type pre struct{ prog, binder string }
+	var pres []pre
 	for i, r := range s.Results {
-		v := h.expr(r, env)
+		var v hv
+		if c, ok := r.(*ast.CallExpr); ok && !isIgnoredCall(c) {
+			if ef, ok := h.effect(c, env); ok {
+				if ef.getByID || len(ef.results) != 1 {
+					h.refuse(r, "this call cannot be used as a result")
+				}
+				pres = append(pres, pre{ef.prog, ef.binder})
+				v = ef.results[0]
+			}
+		}
+		if v.kind == "" {
+			v = h.expr(r, env)
+		}
 		want := h.fn.results[i]
 		switch {
 		case want == "ret" && v.kind == "nil":
@@ -1082,7 +1151,11 @@ func (h *hctx) ret(s *ast.ReturnStmt, env henv) string {
 	if len(parts) > 1 {
 		val = "(" + strings.Join(parts, ", ") + ")"
 	}
-	return h.withPending(val, false)
+	body := h.withPending(val, false)
+	for i := len(pres) - 1; i >= 0; i-- {
+		body = bindP(pres[i].prog, pres[i].binder, body)
+	}
+	return body
 }
 
 // ---------- the event methods of channels.go ----------
@@ -1191,6 +1264,22 @@ func genHandlers(repo, out string, events map[string]bool) {
 		{file: "impl/events.go", recv: "manager", name: "OnChannelOpened", coqName: "gen_OnChannelOpened", binders: "(k : chid)", params: kP("chid"), results: []string{"ret"}, resultType: "prog nret"},
 		{file: "impl/events.go", recv: "manager", name: "OnChannelCompleted", coqName: "gen_OnChannelCompleted", binders: "(self : N) (k : chid) (failed : bool)",
 			params: map[string]hv{"#self": self, "chid": {coq: "k", kind: "chid"}, "completeErr": retOk("negb failed", "ROther")}, results: []string{"ret"}, resultType: "prog nret"},
+		{file: "impl/events.go", recv: "manager", name: "OnResponseReceived", coqName: "gen_OnResponseReceived", binders: "(self : N) (k : chid) (m : msg)",
+			params: map[string]hv{"#self": self, "chid": {coq: "k", kind: "chid"}, "response": {coq: "m", kind: "msg"}}, results: []string{"ret"}, resultType: "prog nret"},
+		{file: "impl/events.go", recv: "manager", name: "OnDataReceived", coqName: "gen_OnDataReceived", binders: "(k : chid) (size : N) (index : Z) (unique : bool)",
+			params: map[string]hv{"#self": self, "chid": {coq: "k", kind: "chid"}, "link": {kind: "opaque"}, "size": {coq: "size", kind: "N"}, "index": {coq: "index", kind: "Z"}, "unique": {coq: "unique", kind: "bool"}}, results: []string{"ret"}, resultType: "prog nret"},
+		{file: "impl/events.go", recv: "manager", name: "OnDataQueued", coqName: "gen_OnDataQueued", binders: "(k : chid) (size : N) (index : Z) (unique : bool)",
+			params: map[string]hv{"#self": self, "chid": {coq: "k", kind: "chid"}, "link": {kind: "opaque"}, "size": {coq: "size", kind: "N"}, "index": {coq: "index", kind: "Z"}, "unique": {coq: "unique", kind: "bool"}}, results: []string{"omsg", "ret"}, resultType: "prog (option msg * nret)"},
+		{file: "impl/events.go", recv: "manager", name: "OnDataSent", coqName: "gen_OnDataSent", binders: "(k : chid) (size : N) (index : Z) (unique : bool)",
+			params: map[string]hv{"#self": self, "chid": {coq: "k", kind: "chid"}, "link": {kind: "opaque"}, "size": {coq: "size", kind: "N"}, "index": {coq: "index", kind: "Z"}, "unique": {coq: "unique", kind: "bool"}}, results: []string{"ret"}, resultType: "prog nret"},
+		{file: "impl/events.go", recv: "manager", name: "OnRequestCancelled", coqName: "gen_OnRequestCancelled", binders: "(k : chid)", params: map[string]hv{"#self": self, "chid": {coq: "k", kind: "chid"}, "err": retK("ROther")}, results: []string{"ret"}, resultType: "prog nret"},
+		{file: "impl/events.go", recv: "manager", name: "OnRequestDisconnected", coqName: "gen_OnRequestDisconnected", binders: "(k : chid)", params: map[string]hv{"#self": self, "chid": {coq: "k", kind: "chid"}, "err": retK("ROther")}, results: []string{"ret"}, resultType: "prog nret"},
+		{file: "impl/events.go", recv: "manager", name: "OnSendDataError", coqName: "gen_OnSendDataError", binders: "(k : chid)", params: map[string]hv{"#self": self, "chid": {coq: "k", kind: "chid"}, "err": retK("ROther")}, results: []string{"ret"}, resultType: "prog nret"},
+		{file: "impl/events.go", recv: "manager", name: "OnReceiveDataError", coqName: "gen_OnReceiveDataError", binders: "(k : chid)", params: map[string]hv{"#self": self, "chid": {coq: "k", kind: "chid"}, "err": retK("ROther")}, results: []string{"ret"}, resultType: "prog nret"},
+		{file: "impl/receiving_requests.go", recv: "manager", name: "receiveUpdateRequest", coqName: "gen_receiveUpdateRequest", binders: "(self : N) (k : chid) (m : msg)",
+			params: map[string]hv{"#self": self, "chid": {coq: "k", kind: "chid"}, "request": {coq: "m", kind: "msg"}}, results: []string{"omsg", "ret"}, resultType: "prog (option msg * nret)"},
+		{file: "impl/receiving_requests.go", recv: "manager", name: "processUpdateVoucher", coqName: "gen_processUpdateVoucher", binders: "(k : chid) (m : msg)",
+			params: map[string]hv{"#self": self, "chid": {coq: "k", kind: "chid"}, "request": {coq: "m", kind: "msg"}}, results: []string{"omsg", "ret"}, resultType: "prog (option msg * nret)"},
 	}
 	var b strings.Builder
 	b.WriteString("(* GENERATED by tools/dt2coq (handlers.go) from impl/utils.go, impl/restart.go, impl/impl.go, impl/events.go and the event\n   methods of channels/channels.go -- do not edit *)\n")
